@@ -23,7 +23,7 @@ const argSDL = `
 enum E { RED GREEN }
 scalar Any
 input Obj { x: Int y: [Int] z: Obj }
-directive @dir(i: Int, d: Int = 7, l: [Int], o: Obj, a: Any, e: E = RED, fl: Float, id: ID, fls: [Float]) on FIELD
+directive @dir(i: Int, d: Int = 7, l: [Int], o: Obj, a: Any, e: E = RED, fl: Float, id: ID, fls: [Float]) on FIELD | QUERY | FRAGMENT_SPREAD | INLINE_FRAGMENT | FRAGMENT_DEFINITION
 type Query {
   f(i: Int, d: Int = 7, l: [Int], o: Obj, a: Any, e: E = RED, fl: Float, id: ID, fls: [Float]): Int
   g(u1: Int, u2: Int, u3: Int): Int
@@ -167,7 +167,9 @@ func checkC15(c *core.Ctx) {
 			argText = "(" + ac.Arg + ": " + argLiteral(ac.Use[0]) + ")"
 			nontrivial++
 		}
-		q := "query($p: Int, $q: Int = 3, $n: Int = null) { f" + argText + " @dir" + argText + " g(u1: $p, u2: $q, u3: $n) }"
+		// the directive stands at every executable location that takes one, twice on spreads of the same fragment
+		q := "query($p: Int, $q: Int = 3, $n: Int = null) @dir" + argText + " { f" + argText + " @dir" + argText + " g(u1: $p, u2: $q, u3: $n) ...F @dir" + argText +
+			" ... on Query @dir" + argText + " { __typename } ...F @dir" + argText + " } fragment F on Query @dir" + argText + " { __typename }"
 		big := len(ac.Use) > 0 && (hasKind(ac.Use[0], "bigint") || hasKind(ac.Use[0], "bigfloat"))
 		// one parsed and validated document per text, shared by all rows that differ only in the supplied
 		// variables: resolving arguments again on the same tree with other values must not remember anything
@@ -206,6 +208,28 @@ func checkC15(c *core.Ctx) {
 		targets := map[string]func() map[string]interface{}{
 			"Field.ArgumentMap":     func() map[string]interface{} { return field.ArgumentMap(coerced) },
 			"Directive.ArgumentMap": func() map[string]interface{} { return field.Directives[0].ArgumentMap(coerced) },
+		}
+		op0 := doc.Operations[0]
+		at := func(name string, ds ast.DirectiveList) {
+			if len(ds) > 0 {
+				d := ds[0]
+				targets["Directive.ArgumentMap ("+name+")"] = func() map[string]interface{} { return d.ArgumentMap(coerced) }
+			}
+		}
+		at("on the operation", op0.Directives)
+		if len(op0.SelectionSet) >= 5 {
+			if sp, ok := op0.SelectionSet[2].(*ast.FragmentSpread); ok {
+				at("on the first spread of F", sp.Directives)
+			}
+			if in, ok := op0.SelectionSet[3].(*ast.InlineFragment); ok {
+				at("on the inline fragment", in.Directives)
+			}
+			if sp, ok := op0.SelectionSet[4].(*ast.FragmentSpread); ok {
+				at("on the second spread of F", sp.Directives)
+			}
+		}
+		if fd := doc.Fragments.ForName("F"); fd != nil {
+			at("on the fragment definition", fd.Directives)
 		}
 		for name, fn := range targets {
 			m, crash := argMapOf(fn)
